@@ -497,7 +497,7 @@ impl Prop for Sampling {
     }
 
     fn components(&self) -> Value {
-        json!({"real": ["SampledChance (alias table)", "CachedInfoset::sample", "Multinomial::sample", "all three solvers"], "stub": ["thread_rng entropy (keyed SplitMix64 / scripted words)", "rayon, AtomicF64, Mutex stand-ins when K > 1"]})
+        json!({"real": ["SampledChance (alias table)", "CachedInfoset::sample", "Multinomial::sample", "all three solvers"], "stub": ["thread_rng entropy (keyed SplitMix64 / scripted words) - except in the own-entropy runs (1 in 1000), where the library draws from its own source and the seam only listens", "rayon, AtomicF64, Mutex stand-ins when K > 1"]})
     }
 
     fn extra_evidence(&self, _agg: &Aggregate) -> Value {
